@@ -7,6 +7,7 @@ import (
 	"time"
 
 	clptypes "github.com/Sifchain/sifnode/x/clp/types"
+	margintypes "github.com/Sifchain/sifnode/x/margin/types"
 	sdk "github.com/cosmos/cosmos-sdk/types"
 
 	"sifverif/chain"
@@ -235,11 +236,19 @@ type c10Case struct {
 	Blocks   int
 	Panic    string
 	PanicAt  string
+	Margin   bool
+}
+
+// enableMargin sets margin parameters (random inside the envelope, epoch length 1..4) and enables both pools for margin.
+func enableMargin(e *env.Env, rng *chain.Rng) {
+	w := &marginWorld{Env: e, FundFC: chain.NewAccount("fundfc"), FundInc: chain.NewAccount("fundinc"), Toks: []string{"ceth", "cusdc"}}
+	w.setParams(rng, map[string]interface{}{})
+	mustOK(e.Tx(e.Admin, &margintypes.MsgUpdatePools{Signer: e.Admin.Addr.String(), Pools: w.Toks}), "margin pools")
 }
 
 func (cs c10Case) replay() map[string]interface{} {
 	return map[string]interface{}{"setup": "pools ceth and cusdc (1e24/1e24, user0), reward bucket 1e20 ceth, then the admin message below signed by the holder of all roles at height 3; then blocks with one swap and one add each",
-		"message": cs.Kind, "fields": cs.Fields, "accepted": cs.Accepted, "blocks_run": cs.Blocks, "panic": cs.Panic, "panic_at": cs.PanicAt}
+		"pools_enabled_for_margin": cs.Margin, "message": cs.Kind, "fields": cs.Fields, "accepted": cs.Accepted, "blocks_run": cs.Blocks, "panic": cs.Panic, "panic_at": cs.PanicAt}
 }
 
 func panicClass(p string) string {
@@ -317,6 +326,10 @@ func buildPolicyMsg(e *env.Env, rng *chain.Rng, kind int) (string, sdk.Msg, map[
 		m := &clptypes.MsgUpdatePmtpParams{Signer: adm, PmtpPeriodGovernanceRate: "100000000000000000000000000000000000000", PmtpPeriodEpochLength: 2, PmtpPeriodStartBlock: h + 1, PmtpPeriodEndBlock: h + 6}
 		f["gov_rate"], f["epoch_length"], f["start"], f["end"] = m.PmtpPeriodGovernanceRate, m.PmtpPeriodEpochLength, m.PmtpPeriodStartBlock, m.PmtpPeriodEndBlock
 		return "MsgUpdatePmtpParams", m, f
+	case 102: // corpus, finding F-7: a provider-distribution period with block rate 1 (margin-enabled pools)
+		p := &clptypes.ProviderDistributionPeriod{DistributionPeriodStartBlock: uint64(h + 1), DistributionPeriodEndBlock: uint64(h + 3), DistributionPeriodBlockRate: sdk.OneDec(), DistributionPeriodMod: 1}
+		f["start"], f["end"], f["mod"], f["rate"] = h+1, h+3, 1, "1"
+		return "MsgAddProviderDistributionPeriodRequest", &clptypes.MsgAddProviderDistributionPeriodRequest{Signer: adm, DistributionPeriods: []*clptypes.ProviderDistributionPeriod{p}}, f
 	case 0: // reward period
 		p := &clptypes.RewardPeriod{RewardPeriodId: "rp1"}
 		if rng.Intn(2) == 0 {
@@ -479,10 +492,17 @@ func C10(c Ctx) *report.Report {
 		coins := sdk.NewCoins(sdk.NewCoin("ceth", sdk.NewIntFromBigInt(chain.E(20))))
 		e.Tx(e.Users[2], clptypes.NewMsgAddLiquidityToRewardsBucketRequest(e.Users[2].Addr.String(), coins))
 		kind := rng.Intn(8)
-		if i < 2 {
-			kind = 100 + i // corpus first: the recorded findings F-15 and F-16
+		if i < 3 {
+			kind = 100 + i // corpus first: the recorded findings F-15, F-16 and F-7
 		}
 		cs := c10Case{ID: id}
+		// a third of the worlds have both pools enabled for margin trading: the margin begin blocker then recomputes the
+		// pools' interest rates and health every margin epoch
+		if rng.Intn(3) == 0 || kind == 102 {
+			enableMargin(e, rng)
+			cs.Margin = true
+			rep.Count("admin.world.margin-enabled")
+		}
 		// second message kinds need a first one
 		if kind == 5 && rng.Intn(2) == 0 {
 			m := &clptypes.MsgUpdateLiquidityProtectionParams{Signer: e.Admin.Addr.String(), MaxRowanLiquidityThreshold: sdk.NewUint(100), MaxRowanLiquidityThresholdAsset: "cusdc", EpochLength: 10, IsActive: true}
@@ -541,7 +561,7 @@ func C10(c Ctx) *report.Report {
 	}
 	rep.Evaluations = id + pc.next
 	rep.DistinctNontrivial = len(seen)
-	rep.Rule = "(a) one case = one admin policy message (8 kinds: reward periods, provider-distribution periods, ratio-shifting params and rates, liquidity-protection params and rates, swap fees, rewards params) with every field drawn from a boundary dictionary (0, 1, h-1..h+8, 2^63-1, 2^63, 2^64-1; decimals -2..1e38 incl. -1 and 1e-18 steps around 0/1; missing optional pointers; unparsable strings), delivered to the real app; every accepted one is followed by 9 blocks with swaps and adds, recover() around BeginBlock/EndBlock; (b) user histories with amounts 0, 1, 2^64, 2^128, dust, rewards buckets and hour epochs, incl. the scripted zero-unit-provider history; non-trivial = distinct (message, fields)"
+	rep.Rule = "(a) one case = one admin policy message (8 kinds: reward periods, provider-distribution periods, ratio-shifting params and rates, liquidity-protection params and rates, swap fees, rewards params) with every field drawn from a boundary dictionary (0, 1, h-1..h+8, 2^63-1, 2^63, 2^64-1; decimals -2..1e38 incl. -1 and 1e-18 steps around 0/1; missing optional pointers; unparsable strings), delivered to the real app (a third of the worlds with both pools enabled for margin trading, margin epoch 1..4 blocks); every accepted one is followed by 9 blocks with swaps and adds, recover() around BeginBlock/EndBlock; (b) user histories with amounts 0, 1, 2^64, 2^128, dust, rewards buckets and hour epochs, incl. the scripted zero-unit-provider history; non-trivial = distinct (message, fields)"
 	return rep
 }
 
